@@ -314,7 +314,7 @@ class DependencyResult(DependencyState):
         symb_exec.eval_updt_irblock(IRBlock(loc_db, temp_loc, assignblks), step=step)
 
         # Return only inputs values (others could be wrongs)
-        return {element: symb_exec.symbols[element]
+        return {element: symb_exec.eval_expr(element)
                 for element in self.inputs}
 
 
